@@ -231,6 +231,12 @@ impl ControlFlowGraph {
                     continue;
                 }
 
+                // A block whose only edge is an unconditional self-loop has
+                // nothing to merge with
+                if successor == block.index() {
+                    continue;
+                }
+
                 // If this successor is already being merged, skip it
                 if blocks_being_merged.contains(&successor) {
                     continue;
